@@ -53,9 +53,10 @@ def run(ctx):
                 seed = int(rng.integers(1 << 30))
                 I, idx, idxm = teneva.sample_tt(n, m, seed=seed)
                 y = teneva.get_many(T, I)
+                e_abs = 1e-10 * min(1., 2.0 ** sp)        # the accuracy is absolute: it follows the data downwards
                 what = 'svd_incomplete(n=%s, target ranks %s, m=%d, cap=%d, scale 2^%d, seed %d)' % (n, rho, m, cap, sp, seed)
                 try:
-                    Z = teneva.svd_incomplete(I, y, idx, idxm, 1e-10, cap)
+                    Z = teneva.svd_incomplete(I, y, idx, idxm, e_abs, cap)
                 except Exception as ex:
                     ctx.violation('svd_incomplete:raises', '%s raised %s: %s' % (what, type(ex).__name__, ex), case=row)
                     continue
@@ -71,8 +72,8 @@ def run(ctx):
                     ctx.check(err <= 1e-5, 'svd_incomplete:recovery', what + ': relative error %.2e although the target is recoverable' % err, case=row)
                     # the same sample arrays used again (a sweep over caps): the data must be intact and the answer the same
                     y_keep, I_keep = y.copy(), I.copy()
-                    Z2 = teneva.svd_incomplete(I, y, idx, idxm, 1e-10, cap + 1)
-                    Z3 = teneva.svd_incomplete(I, y, idx, idxm, 1e-10, cap)
+                    Z2 = teneva.svd_incomplete(I, y, idx, idxm, e_abs, cap + 1)
+                    Z3 = teneva.svd_incomplete(I, y, idx, idxm, e_abs, cap)
                     ok2 = np.array_equal(y, y_keep) and np.array_equal(I, I_keep) and F.is_wellformed(Z3, n)
                     if ok2:
                         e3 = np.linalg.norm(F.dense(Z3) - b) / np.linalg.norm(b)
